@@ -665,7 +665,16 @@ func (c *Client) Start() (addr net.Addr, err error) {
 		cmd = exec.Command("")
 	}
 	if !c.config.SkipHostEnv {
-		cmd.Env = append(cmd.Env, os.Environ()...)
+		for _, e := range os.Environ() {
+			// The handshake variables below describe this client's configuration.
+			// A host that is itself a plugin has some of them in its own
+			// environment; those that are only set conditionally must not leak
+			// through and make the child negotiate a mode nobody asked for.
+			if strings.HasPrefix(e, "PLUGIN_CLIENT_CERT=") || strings.HasPrefix(e, envMultiplexGRPC+"=") {
+				continue
+			}
+			cmd.Env = append(cmd.Env, e)
+		}
 	}
 	cmd.Env = append(cmd.Env, env...)
 	cmd.Stdin = os.Stdin
